@@ -347,4 +347,24 @@ example : isOk (rpmsLoads (exDoc "1.2" "productmd.rpms")) = true ∧ isOk (rpmsL
     ∧ isOk (rpmsLoads (exDoc "1.2" "productmd.images")) = false ∧ isOk (rpmsLoads (exDoc "1.0" "productmd.images")) = true := by
   decide +kernel
 
+def exVarDoc (id uid : Str) (arches : List Str) (kids : Option (List Str)) : PyVal :=
+  .dict ([(c!"id", .str id), (c!"uid", .str uid), (c!"name", .str c!"n"), (c!"type", .str c!"variant"),
+          (c!"arches", .list (arches.map .str)), (c!"paths", .dict [])]
+         ++ match kids with | some ks => [(c!"variants", .list (ks.map .str))] | none => [])
+
+def exCIDoc (childArches : List Str) (refs : List Str) : PyVal :=
+  .dict [(c!"header", .dict [(c!"version", .str c!"1.2"), (c!"type", .str c!"productmd.composeinfo")]),
+         (c!"payload", .dict [(c!"compose", .dict [(c!"id", .str c!"F-1-20200101.n.0"), (c!"date", .str c!"20200101"), (c!"type", .str c!"nightly"),
+                                                   (c!"respin", .int 0)]),
+                              (c!"release", .dict [(c!"name", .str c!"F"), (c!"short", .str c!"F"), (c!"version", .str c!"1"), (c!"type", .str c!"ga")]),
+                              (c!"variants", .dict [(c!"Server", exVarDoc c!"Server" c!"Server" [c!"x86_64"] (some refs)),
+                                                    (c!"Server-optional", exVarDoc c!"optional" c!"Server-optional" childArches none)])])]
+
+/-- a two-level compose loads (the forest is rebuilt: one top-level variant with one child); the same document with a child arch
+outside its parent's, or with a reference to a child that has no entry, is refused -/
+example : isOk (ciLoads (exCIDoc [c!"x86_64"] [c!"optional"])) = true
+    ∧ (match ciLoads (exCIDoc [c!"x86_64"] [c!"optional"]) with | .ok m => m.variants.length == 1 && (m.variants.map (·.kids.length)) == [1] | _ => false) = true
+    ∧ isOk (ciLoads (exCIDoc [c!"sparc"] [c!"optional"])) = false
+    ∧ isOk (ciLoads (exCIDoc [c!"x86_64"] [c!"optional", c!"ghost"])) = false := by decide +kernel
+
 end PM
